@@ -155,6 +155,10 @@ def generate(tier, rng):
         cases.append({"op": "open", "g": g, "toks": toks, "layout": layout, "enc": rng.choice(ENCODINGS), "crlf": rng.random() < 0.4,
                       "sp": rng.random() < 0.7, "empty": rng.random() < 0.5, "dup": rng.choice(["error", "rename"]),
                       "scale": ["rank", 0]})
+    # a tier as long as a real corpus file's (more than ten thousand entries), in the short and in the long layout
+    for _ in range(1 if tier == "quick" else 6):
+        cases.append({"op": "bigopen", "n": rng.randint(10050, 13000), "pts": rng.random() < 0.3, "g": {"tiers": [{"entries": [1]}]},
+                      "layout": "short+long", "scale": ["rank", 0]})
     # malformed stream: valid short-form files with a random edit; the reader's outcome (dictionary or exception
     # kind) is compared with the reader model, number conversions included
     for _ in range(400 if tier == "quick" else 12000):
@@ -246,15 +250,62 @@ def _run_mutshort(case):
     return core.run_guarded(f)
 
 
+def _run_bigopen(case):
+    from praatio import textgrid as tgmod
+    n, pts = case["n"], case["pts"]
+    d = os.path.join(core.VERIF, ".work", "c03b.%d" % os.getpid())
+    os.makedirs(d, exist_ok=True)
+    cls = "TextTier" if pts else "IntervalTier"
+    short = ['File type = "ooTextFile"', 'Object class = "TextGrid"', "", "0", str(n), "<exists>", "1", '"%s"' % cls, '"big"', "0", str(n), str(n)]
+    long_ = ['File type = "ooTextFile"', 'Object class = "TextGrid"', "", "xmin = 0 ", "xmax = %d " % n, "tiers? <exists> ", "size = 1 ", "item []: ",
+             "    item [1]:", '        class = "%s" ' % cls, '        name = "big" ', "        xmin = 0 ", "        xmax = %d " % n,
+             "        %s: size = %d " % ("points" if pts else "intervals", n)]
+    for k in range(n):
+        lab = "l%d" % k
+        if pts:
+            short += ["%d.5" % k, '"%s"' % lab]
+            long_ += ["        points [%d]:" % (k + 1), "            number = %d.5 " % k, '            mark = "%s" ' % lab]
+        else:
+            short += [str(k), str(k + 1), '"%s"' % lab]
+            long_ += ["        intervals [%d]:" % (k + 1), "            xmin = %d " % k, "            xmax = %d " % (k + 1), '            text = "%s" ' % lab]
+
+    def f():
+        probs = []
+        for nm, lines in (("short", short), ("long", long_)):
+            fn = core.fname(os.path.join(d, nm + ".TextGrid"))
+            with open(fn, "w", encoding="utf-8") as fh:
+                fh.write("\n".join(lines) + "\n")
+            tg = tgmod.openTextgrid(fn, True)
+            ents = tg.getTier("big").entries
+            if len(ents) != n:
+                probs.append("%s layout: %d of %d entries came back" % (nm, len(ents), n))
+                continue
+            for k, e in enumerate(ents):
+                want = (k + 0.5, "l%d" % k) if pts else (k, k + 1, "l%d" % k)
+                if tuple(e) != want:
+                    probs.append("%s layout: entry %d came back as %r" % (nm, k, tuple(e)))
+                    break
+        return probs
+    try:
+        return core.run_guarded(f)
+    finally:
+        shutil.rmtree(d, ignore_errors=True)
+
+
 def run(case):
+    if case["op"] == "bigopen":
+        return _run_bigopen(case)
     if case["op"] in ("mutshort", "mutlong"):
         return _run_mutshort(case)
     from praatio import textgrid as tgmod
     from praatio.utilities import textgrid_io
     d = os.path.join(core.VERIF, ".work", "c03.%d" % os.getpid())
     os.makedirs(d, exist_ok=True)
-    fn = core.fname(os.path.join(d, "in.TextGrid"))
+    # a file is what its content says, whatever it is called
     text = file_text(case)
+    import zlib
+    ext = ["in.TextGrid", "in.TextGrid", "in.json", "in.JSON", "in.txt", "in.textgrid.bak", "in"][zlib.crc32(text.encode("utf-8", "replace")) % 7]
+    fn = core.fname(os.path.join(d, ext))
 
     def f():
         with open(fn, "wb") as fh:
@@ -334,6 +385,8 @@ def _emit_mutshort(case, r):
 
 
 def emit_multi(case, r):
+    if case["op"] == "bigopen":
+        return []
     if case["op"] in ("mutshort", "mutlong"):
         return _emit_mutshort(case, r)
     if "ok" not in r:
@@ -370,6 +423,8 @@ def model_expr(case):
 
 
 def py_checks(case, r):
+    if case["op"] == "bigopen":
+        return r["ok"] if "ok" in r else ["opening a conformant file with %d entries raised %s" % (case["n"], r.get("exc", r))]
     if case["op"] in ("mutshort", "mutlong"):
         return []
     if "ok" not in r:
@@ -409,6 +464,8 @@ def py_checks(case, r):
 
 
 def classify(case, r):
+    if case["op"] == "bigopen":
+        return "bigopen/%s" % ("points" if case["pts"] else "intervals")
     if case["op"] in ("mutshort", "mutlong"):
         return "mutated-%s/%s" % (case["layout"], "parsed" if "ok" in r else "err:" + r.get("err", "?"))
     out = "crash" if "ok" not in r else ("opened" if "opened" in r["ok"] else "err:" + str(r["ok"].get("open_err")))
@@ -420,6 +477,8 @@ def nontrivial(case, r):
 
 
 def shrinks(case):
+    if case["op"] == "bigopen":
+        return
     for c in c01.shrinks(case):
         yield c
 
